@@ -248,6 +248,21 @@ METAS = [
 ]
 
 
+def feasible(spec, fmt, radunit):
+    """Inside the lattice?  Sizes that the requested format would write as zero (or annulus radii that would
+    coincide) cannot be read back as a region at all and are outside it."""
+    if spec['frame'] == 'image' or spec['shape'] in ('polygon', 'line', 'text', 'symbol'):
+        return True
+    s = SIZES_DEG[spec['size']] / UNIT_DEG[radunit or 'deg']
+    written = {'circle': [s], 'circleannulus': [s, 2.5 * s], 'ellipse': [s, 0.5 * s], 'rectangle': [1.5 * s, s]}[spec['shape']]
+    r = [float(format(v, fmt)) for v in written]
+    if any(v <= 0 for v in r):
+        return False
+    if spec['shape'] == 'circleannulus' and not r[0] < r[1]:
+        return False
+    return True
+
+
 def single_cases(tier):
     out = []
     fmts = ['.3f', '.6f'] if tier == 'quick' else ['.3f', '.6f', '.10f']
@@ -276,7 +291,8 @@ def single_cases(tier):
                                 for coordsys in cs:
                                     for fmt in fmts:
                                         for ru in rus:
-                                            out.append([spec, coordsys, fmt, ru])
+                                            if feasible(spec, fmt, ru):
+                                                out.append([spec, coordsys, fmt, ru])
     # metadata
     for shape in SHAPES:
         for frame in ('image', 'fk5', 'galactic'):
